@@ -772,6 +772,10 @@ func runC07(cfg *vh.Config) error {
 		wt, wr := runWalk(cfg, res, &caseNo, texts, how)
 		wf.Terms = append(wf.Terms, wt...)
 		walkRecs = append(walkRecs, wr...)
+		// ---- stream 11: the same texts compiled alone, against the WHOLE front end with the walker model inside
+		ut, ur := runFull(cfg, res, &caseNo, texts, how)
+		wf.Terms = append(wf.Terms, ut...)
+		walkRecs = append(walkRecs, ur...)
 	}
 	// ---- stream 7: entity declarations against model/CmpbEntity.v (expansion by the ent family's model)
 	{
